@@ -148,31 +148,63 @@ def check_history(case):
     return {"nontrivial": interesting, "labels": sorted(labels)}
 
 
-def _ops(L, S):
-    n_any = st.one_of(
-        st.sampled_from([0, 0, 1, 1, L // 2, L // 2 + 1, max(L - 1, 0), L, L + 1, S, 2 * L + S]),
-        st.integers(0, max(L // 2, 1)),
-        st.integers(0, L),
-        st.integers(L, 4 * L + 3),
-    )
-    sig = dict(
-        n=n_any,
+def _sig_fields():
+    return dict(
         seed=st.integers(0, 2 ** 16),
         kind=st.sampled_from(["noise", "noise", "const", "impulse", "zeros"]),
         scale=st.sampled_from([1.0, 50.0]),
-        dtype=st.sampled_from(["f64", "f64", "f32"]),
     )
-    chunk = st.fixed_dictionaries(dict(op=st.just("chunk"), **sig))
-    fin = st.just({"op": "finalize"})
-    full = st.fixed_dictionaries(dict(op=st.just("full"), **sig))
-    fbf = st.fixed_dictionaries(dict(op=st.just("fbf"), chunk_size=st.integers(1, 2 * L + 1), **sig))
-    return st.lists(st.one_of(chunk, chunk, chunk, fin, fin, full, fbf), min_size=2, max_size=40)
+
+
+@st.composite
+def _utterance(draw, L, S):
+    """One utterance as a list of operations. Total lengths are drawn from the classes that matter:
+    empty, too short for a frame, sub-frame but long enough, about one frame, several frames."""
+    total = draw(st.one_of(
+        st.just(0),
+        st.integers(1, max(L // 2, 1)),
+        st.integers(L // 2 + 1, max(L - 1, L // 2 + 1)),
+        # long enough for a frame but shorter than the right padding of its last frame
+        st.integers(L // 2 + 1, max(L - S - 1, L // 2 + 1)),
+        st.integers(L, L + S),
+        st.integers(L, 4 * L + 3),
+        st.sampled_from([L // 2, L // 2 + 1, L - 1, L, L + 1, 2 * L + S]),
+    ))
+    mode = draw(st.sampled_from(["chunks", "chunks", "chunks", "full", "fbf"]))
+    dtype = draw(st.sampled_from(["f64", "f64", "f32"]))
+    sig = {k: draw(v) for k, v in _sig_fields().items()}
+    if mode == "full":
+        return [dict(op="full", n=total, dtype=dtype, **sig)]
+    if mode == "fbf":
+        return [dict(op="fbf", n=total, dtype=dtype, chunk_size=draw(st.integers(1, 2 * L + 1)), **sig)]
+    ncuts = draw(st.integers(0, 3))
+    cuts = sorted(draw(st.lists(st.integers(0, total), min_size=ncuts, max_size=ncuts)))
+    pts = [0] + cuts + [total]
+    ops = []
+    for i in range(len(pts) - 1):
+        n = pts[i + 1] - pts[i]
+        ops.append(dict(op="chunk", n=n, dtype=dtype, seed=sig["seed"] + i, kind=sig["kind"], scale=sig["scale"]))
+        if draw(st.sampled_from([False] * 5 + [True])):
+            # a call that must be refused mid-utterance
+            r = draw(st.sampled_from(["full", "fbf"]))
+            ops.append(dict(op=r, n=draw(st.sampled_from([0, 1, L // 2, L, 3 * L])), dtype=dtype, chunk_size=draw(st.integers(1, L + 1)), **sig))
+    ops.append({"op": "finalize"})
+    if draw(st.sampled_from([False, False, False, True])):
+        ops.append({"op": "finalize"})
+    return ops
+
+
+def _ops(L, S):
+    return st.lists(_utterance(L, S), min_size=2, max_size=8).map(lambda us: [op for u in us for op in u])
 
 
 @st.composite
 def _histories(draw, kind):
     if kind == "stft":
         comp = draw(stft_specs(max_len=24))
+        comp["frame_style"] = draw(st.sampled_from(["causal", "centered"]))
+        if draw(st.booleans()):
+            comp["S"] = draw(st.integers(1, max(1, comp["L"] // 3)))
         L, S = comp["L"], comp["S"]
     else:
         comp = draw(si_specs())
@@ -185,6 +217,6 @@ def clauses(tier):
     rule = ("non-trivial = history with >= 2 utterances in which an earlier utterance of another length class exists, "
             "or an utterance ended right after a sub-frame chunk, or a refused mid-utterance call occurred; distinct by full history")
     return [
-        Clause("stft_history", check_history, rule, lambda: _histories("stft"), quick=350, thorough=12000),
-        Clause("si_history", check_history, rule, lambda: _histories("si"), quick=120, thorough=4000),
+        Clause("stft_history", check_history, rule, lambda: _histories("stft"), quick=900, thorough=30000),
+        Clause("si_history", check_history, rule, lambda: _histories("si"), quick=200, thorough=6000),
     ]
